@@ -142,6 +142,61 @@ func (p *pkg) emlSites(file *ast.File) []emlSite {
 	return res
 }
 
+// emlAddrFromList recognises, in parseEMLHeaders:
+//   addrHeaders := map[AddrHeader]func(...string) error{HeaderTo: msg.To, HeaderCc: msg.Cc, HeaderBcc: msg.Bcc}
+//   X, err := netmail.ParseAddressList(v);  for _, a := range X { S = append(S, a.String()) };  addrFunc(S...)
+func (p *pkg) emlAddrFromList() (bool, string) {
+	fn, ok := p.funcs["parseEMLHeaders"]
+	if !ok || fn.Body == nil {
+		return false, "function not found"
+	}
+	setters := map[string]bool{}
+	var listVar, strsVar string
+	variadicCall := false
+	ast.Inspect(fn.Body, func(n ast.Node) bool {
+		switch t := n.(type) {
+		case *ast.CompositeLit:
+			if _, isMap := t.Type.(*ast.MapType); isMap {
+				for _, el := range t.Elts {
+					if kv, ok := el.(*ast.KeyValueExpr); ok {
+						setters[p.src(kv.Key)+"="+p.src(kv.Value)] = true
+					}
+				}
+			}
+		case *ast.AssignStmt:
+			if len(t.Rhs) == 1 {
+				if c, ok := t.Rhs[0].(*ast.CallExpr); ok && p.src(c.Fun) == "netmail.ParseAddressList" && len(t.Lhs) >= 1 {
+					listVar = p.src(t.Lhs[0])
+				}
+			}
+		case *ast.RangeStmt:
+			if listVar != "" && p.src(t.X) == listVar && t.Value != nil {
+				elem := p.src(t.Value)
+				for _, st := range t.Body.List {
+					if as, ok := st.(*ast.AssignStmt); ok && len(as.Rhs) == 1 {
+						if c, ok := as.Rhs[0].(*ast.CallExpr); ok && p.src(c.Fun) == "append" && len(c.Args) == 2 &&
+							p.src(c.Args[1]) == elem+".String()" && p.src(c.Args[0]) == p.src(as.Lhs[0]) {
+							strsVar = p.src(as.Lhs[0])
+						}
+					}
+				}
+			}
+		case *ast.CallExpr:
+			if strsVar != "" && t.Ellipsis.IsValid() && len(t.Args) == 1 && p.src(t.Args[0]) == strsVar {
+				variadicCall = true
+			}
+		}
+		return true
+	})
+	if !(setters["HeaderTo=msg.To"] && setters["HeaderCc=msg.Cc"] && setters["HeaderBcc=msg.Bcc"]) {
+		return false, "the To/Cc/Bcc setters are not msg.To / msg.Cc / msg.Bcc"
+	}
+	if listVar == "" || strsVar == "" || !variadicCall {
+		return false, "no setter call with the String() forms of the ParseAddressList elements"
+	}
+	return true, "addrFunc(" + strsVar + "...) with " + strsVar + " = String() of each element of " + listVar + " := netmail.ParseAddressList(v)"
+}
+
 func cmt(s string) string {
 	s = strings.ReplaceAll(s, "(*", "( *")
 	s = strings.ReplaceAll(s, "*)", "* )")
@@ -164,6 +219,14 @@ func init() {
 		} {
 			p.constS(c[0], c[1])
 		}
+
+		// (3) To/Cc/Bcc of the parsed Msg are set from the ELEMENTS of the net/mail.ParseAddressList result
+		emit("\n(* ---- eml engine: parseEMLHeaders sets To/Cc/Bcc from the parsed address list ---- *)\n")
+		ok, why := p.emlAddrFromList()
+		if !ok {
+			untranslatable = append(untranslatable, "eml_addr_lists_from_parser")
+		}
+		emit("(* parseEMLHeaders: %s *)\nDefinition eml_addr_lists_from_parser : bool := %v.\n", cmt(why), ok)
 
 		emit("\n(* ---- eml engine: panic-site inventory of eml.go: (function, expression, syntactic guard) ---- *)\n")
 		f, ok := p.files["eml.go"]
